@@ -148,11 +148,11 @@ impl Position {
         }
     }
 
-    fn has_x_position(&self) -> bool {
+    pub(crate) fn has_x_position(&self) -> bool {
         self.xmin.is_some() || self.xmax.is_some() || self.cx.is_some() || self.dx.is_some()
     }
 
-    fn has_y_position(&self) -> bool {
+    pub(crate) fn has_y_position(&self) -> bool {
         self.ymin.is_some() || self.ymax.is_some() || self.cy.is_some() || self.dy.is_some()
     }
 
